@@ -1,4 +1,5 @@
 """C14 — the shipped pipeline matches the library; runs do not influence each other."""
+import json
 import os
 import re
 
@@ -327,7 +328,70 @@ def r4_global_state(ctx):
         ctx.bad("statics|users|%s" % ",".join(sorted(users - allowed)), "src", "S_SCRATCH accessed from %s" % sorted(users - allowed))
 
 
-RULES = [("C14-R1", r1_exit_status), ("C14-R2", r2_same_wiring), ("C14-R2b", r2b_cli_prints_the_library_rendering), ("C14-R2c", r2c_routes_are_labelled_apart), ("C14-R3", r3_scratch_rule), ("C14-R4", r4_global_state)]
+def r5_report_gets_the_text_it_parsed(ctx):
+    """Every diagnostic the CLI prints is located in the text that was scanned: each Diagnostics::report call of run_source
+    receives, as its source argument, the very text handed to Lexer::new, and the file name as the label - both are `&str`, so
+    the swapped order type-checks, and the renderer then slices the file name with spans of the program (a panic, or a
+    diagnostic showing the wrong line)."""
+    if ctx.bin is None:
+        ctx.bad("report-args|no-bin", "", "the CLI crate was not analysed")
+        return
+    n = 0
+    for fid, fn in sorted(ctx.bin.fns.items()):
+        lex = [c for c in fn.calls() if (c.callee or "").endswith("scanner::Lexer::new")]
+        reps = [c for c in fn.calls() if (c.callee or "").endswith("diagnostics::Diagnostics::report")]
+        if not lex or not reps:
+            continue
+        ctx.touch(fn)
+        text = sh(ne(fn.deep(lex[0].args[0])))
+        for c in reps:
+            n += 1
+            got_src, got_name = sh(ne(fn.deep(c.args[1]))), sh(ne(fn.deep(c.args[2])))
+            ordn = sum(1 for r in ctx.records if r["rule"] == ctx.rule and r["instance"].startswith("report-args|%s#" % parent_fn(fid)))
+            if got_src == text and got_name != text:
+                ctx.ok("report-args|%s#%d" % (parent_fn(fid), ordn + 1), fn.where(c.block), "report(%s, %s) - the text given to the lexer" % (got_src, got_name))
+            else:
+                ctx.bad("report-args|%s|%s,%s" % (parent_fn(fid), got_src[:16], got_name[:16]), fn.where(c.block), "%s renders diagnostics with report(%s, %s) although the text that was scanned is `%s`: the spans of the program are applied to another string (a panic in the renderer - exit 101 and no diagnostic - or a diagnostic that shows the wrong text)" % (parent_fn(fid), got_src, got_name, text))
+    ctx.floor("Diagnostics::report calls of the CLI next to a Lexer::new", n, 5)
+
+
+def r6_errors_anywhere_count(ctx):
+    """A stage has failed iff *some* diagnostic it collected is an error - the checker appends its warnings after its errors, so
+    the newest entry says nothing.  has_errors asks every element (Iterator::any / a loop over all), never a single one
+    (last / first / get); the CLI and the playground gate the next stage on it."""
+    fn = ctx.need("diagnostics::Diagnostics::has_errors")
+    ctx.touch(fn)
+    fam = [fn] + list(ctx.lib.closures_of(fn.id))
+    calls = [(g, c) for g in fam for c in g.calls()]
+    whole = [c for g, c in calls if (c.callee or "").split("::")[-1] in ("any", "all", "find", "position", "filter", "fold", "try_fold", "next", "count", "contains")]
+    single = [c for g, c in calls if (c.callee or "").split("::")[-1] in ("last", "first", "get", "pop", "last_mut", "first_mut", "nth", "next_back") and "diagnostics" in sh(ne(fn.deep(c.args[0]))) ]
+    sev = any("Severity" in g.dump() and "Error" in g.dump() for g in fam)
+    if single:
+        ctx.bad("has-errors|single-element|%s" % single[0].callee.split("::")[-1], fn.where(single[0].block), "has_errors looks at one diagnostic only (%s): an error followed by a warning - the checker always appends its warnings last - is not seen, and the CLI runs a program it has just rejected and exits 0" % single[0].callee.split("::")[-1])
+    elif whole and sev:
+        ctx.ok("has-errors|all-elements", fn.where(whole[0].block), "%s over all diagnostics, comparing the severity with Error" % whole[0].callee.split("::")[-1])
+    else:
+        ctx.bad("has-errors|shape", fn.where(), "has_errors no longer examines every diagnostic's severity")
+
+
+def r7_scratch_arenas_get_the_configured_capacity(ctx):
+    """The CLI and the playground state the capacity of the scratch arenas once (SCRATCH_ARENA_CAPACITY); arena::init creates
+    every scratch arena with exactly that many bytes (compared as a value, so `capacity`, `capacity * 1` are the same and
+    `capacity / 2` is not)."""
+    from ..linear import lin, show as lshow
+    fn = ctx.need("arena::scratch::init")
+    ctx.touch(fn)
+    news = [c for c in fn.calls() if (c.callee or "").endswith("bump::Arena::new")]
+    for c in news:
+        e = ne(fn.deep(c.args[0]))
+        if lin(e) == ({"capacity": 1}, 0):
+            ctx.ok("scratch-capacity", fn.where(c.block), "Arena::new(capacity)")
+        else:
+            ctx.bad("scratch-capacity|%s" % re.sub(r"\s+", "", lshow(e))[:30], fn.where(c.block), "a scratch arena is created with `%s` bytes instead of the capacity init() was asked for: programs that fit the advertised capacity run out of memory" % lshow(e))
+    ctx.floor("scratch arenas created by init", len(news), 1)
+
+
+RULES = [("C14-R1", r1_exit_status), ("C14-R2", r2_same_wiring), ("C14-R2b", r2b_cli_prints_the_library_rendering), ("C14-R2c", r2c_routes_are_labelled_apart), ("C14-R3", r3_scratch_rule), ("C14-R4", r4_global_state), ("C14-R5", r5_report_gets_the_text_it_parsed), ("C14-R6", r6_errors_anywhere_count), ("C14-R7", r7_scratch_arenas_get_the_configured_capacity)]
 
 EXPLANATION = (
     "R1: every return of cmd::run_source that yields ExitCode::SUCCESS is edge-dominated by 'no parse diagnostics', 'no "
@@ -343,6 +407,9 @@ EXPLANATION = (
 )
 EXPLANATION += (
     " Added after a seeded change was missed: R2b Diagnostics::report - the CLI's only printing entry point - prints exactly the result of render_ansi and calls no other rendering routine, and render_ansi renders into its buffer."
+)
+EXPLANATION += (
+    ' R5: every Diagnostics::report call of the CLI gets, as its source text, the text that was handed to Lexer::new, and the file name as the label. R6: has_errors examines every diagnostic (Iterator::any over all), never a single element. R7: arena::init creates each scratch arena with exactly the capacity it was asked for (compared as a value).'
 )
 ASSUMPTIONS = ["the wasm crate is analysed lexically (token scan of run_source's body)"]
 TRUSTED = ["rustc nightly MIR for the naija binary crate", "nsx exporter", "regular-expression scan of wasm/src/lib.rs"]
